@@ -76,6 +76,8 @@ pub enum K {
     UserPanic,
     RootBurst,
     ReplaceReporter,
+    CycleBurst,
+    SpanBurst,
 }
 
 #[derive(Clone)]
@@ -203,6 +205,9 @@ pub fn base_profile(prop: &'static str) -> Profile {
         ring_caps: &[(0, 8), (2, 1), (4, 1), (16, 1)],
         atomic_pct: 0,
         weights: &[
+            (K::CycleBurst, 1),
+            (K::SpanBurst, 1),
+            (K::Advance, 1),
             (K::ReplaceReporter, 1),
             (K::Root, 8),
             (K::Child, 10),
@@ -248,6 +253,9 @@ pub fn base_profile(prop: &'static str) -> Profile {
 }
 
 const W_TREE: &[(K, u64)] = &[
+    (K::CycleBurst, 1),
+    (K::SpanBurst, 1),
+    (K::Advance, 1),
     (K::ReplaceReporter, 1),
     (K::UnwindScope, 3),
     (K::Root, 6),
@@ -268,6 +276,9 @@ const W_TREE: &[(K, u64)] = &[
 ];
 
 const W_CANCELABLE: &[(K, u64)] = &[
+    (K::CycleBurst, 1),
+    (K::SpanBurst, 1),
+    (K::Advance, 1),
     (K::ReplaceReporter, 1),
     (K::Root, 8),
     (K::Child, 12),
@@ -288,6 +299,9 @@ const W_CANCELABLE: &[(K, u64)] = &[
 ];
 
 const W_CANCEL: &[(K, u64)] = &[
+    (K::CycleBurst, 1),
+    (K::SpanBurst, 1),
+    (K::Advance, 1),
     (K::ReplaceReporter, 1),
     (K::RootBurst, 2),
     (K::Root, 10),
@@ -334,6 +348,9 @@ const W_SAMPLING: &[(K, u64)] = &[
 ];
 
 const W_ATTACH: &[(K, u64)] = &[
+    (K::CycleBurst, 1),
+    (K::SpanBurst, 1),
+    (K::Advance, 1),
     (K::UserPanic, 3),
     (K::EventNew, 3),
     (K::AddEventFrom, 4),
@@ -358,6 +375,9 @@ const W_ATTACH: &[(K, u64)] = &[
 ];
 
 const W_STATE: &[(K, u64)] = &[
+    (K::CycleBurst, 1),
+    (K::SpanBurst, 1),
+    (K::Advance, 1),
     (K::Root, 14),
     (K::Child, 8),
     (K::ChildLocal, 2),
@@ -506,6 +526,9 @@ const W_API: &[(K, u64)] = &[
 ];
 
 const W_OVERLOAD: &[(K, u64)] = &[
+    (K::CycleBurst, 1),
+    (K::SpanBurst, 1),
+    (K::Advance, 1),
     (K::RootBurst, 3),
     (K::Root, 12),
     (K::Child, 10),
@@ -1270,7 +1293,7 @@ impl<'a> Gen<'a> {
                 self.push(t, Op::Sleep { ns })
             }
             K::Advance => {
-                let ns = [1_000u64, 1_000_000, 3_000_000_000][self.rng.below(3) as usize];
+                let ns = [1_000u64, 1_000_000, 3_000_000_000, 7_000_000_000, 3_600_000_000_000][self.rng.below(5) as usize];
                 self.push(t, Op::Advance { ns })
             }
             K::Exit => {
@@ -1474,6 +1497,38 @@ impl<'a> Gen<'a> {
                 }
                 ok
             }
+            K::CycleBurst => {
+                if self.bursts >= 1 || !self.burst_ok || self.model.reporter.is_none() {
+                    return false;
+                }
+                self.bursts += 1;
+                // just past 2^10, ~6 000 and ~30 000 report intervals
+                let n = [1030u32, 1100, 6100, 6100, 30500][self.rng.below(5) as usize];
+                self.push(t, Op::CycleBurst { n })
+            }
+            K::SpanBurst => {
+                if self.bursts >= 1 || !self.burst_ok {
+                    return false;
+                }
+                let live = self.live_spans();
+                if live.is_empty() {
+                    return false;
+                }
+                self.bursts += 1;
+                let slot = *self.rng.pick(&live);
+                // around the powers of two below the default queue capacity, and just below it
+                let base = [4090u32, 8185, 10195, 10195][self.rng.below(4) as usize];
+                let n = base + self.rng.below(40) as u32;
+                let ok = self.push(t, Op::SpanBurst { slot, n });
+                // another thread finishes things right afterwards, then a flush must deliver it all
+                if self.rng.pct(50) {
+                    let act = self.active_threads();
+                    let t2 = *self.rng.pick(&act);
+                    self.try_kind(t2, K::Finish);
+                    self.try_kind(t2, K::Flush);
+                }
+                ok
+            }
             K::ScopeBurst => {
                 if self.bursts >= 1 || !self.burst_ok {
                     return false;
@@ -1581,6 +1636,7 @@ pub fn gen_sched(rng: &mut Rng, p: &Profile, seed: u64, interval: u64) -> SchedC
         stall,
         wall_steps,
         reporter_traces: rng.pct(p.reporter_traces_pct),
+        adjacent_ids: rng.pct(12),
         report_stall: if rng.pct(p.stall_pct / 2) {
             Some((rng.below(5) as u32, 5_000 + rng.below(4) * interval.max(10_000)))
         } else {
@@ -1602,6 +1658,11 @@ pub fn generate_tier(prop: &str, seed: u64, thorough: bool) -> Case {
         p.ops.1 = (p.ops.1 * 3 / 2).min(120);
         p.callers.1 = (p.callers.1 + 1).min(4);
         p.max_depth += 2;
+    }
+    if !thorough {
+        // the limit-overflow, hot-loop and many-cycle bursts cost 10-1000 ms each: half as many of
+        // them in the tier that runs on every change
+        p.burst_pct = (p.burst_pct / 2).max(1);
     }
     swarm(&mut p, seed);
     generate_with(&p, seed)
